@@ -20,10 +20,11 @@ RULE = (
     "UndeclaredDependencyError. Non-trivial = at least one applied edit changes the reference result of a root memoized before it; distinct by (program, history)."
 )
 ASSUMPTIONS = [
+    "an in-process re-definition of a function that has an alias/wrapper bound to it is delivered by restart instead (the alias would keep the old object alive next to the new one)",
     "'fresh process' is a forked child of a process that has imported twosigma.memento but never any generated code",
     "an explicit version is the author's assertion of unchanged behaviour: the generator bumps it whenever the function or anything reachable from it is edited",
     "variables are restricted to types GlobalVariableHashRule serialises; helpers live in the same package",
-    "roots called through a modifier clone are only generated when the root makes no hidden call (known finding clone-bypass, see known_findings.txt)",
+    "hidden dynamic calls are only generated towards memento functions: a dynamically dispatched plain helper can be neither detected nor refused (known finding hidden-plain-callee); the count of avoided constructions is not measurable per case because avoidance is in the grammar",
 ]
 MANIFEST = {
     "level": "exploration",
@@ -53,9 +54,15 @@ def _segments(case):
         if not info["applied"]:
             skipped += 1
             continue
-        info["delivery"] = h["delivery"]
+        delivery = h["delivery"]
+        if delivery == "inproc" and any(d["k"] in ("alias", "wrapper") and d["target"] in info["cells"] for d in p2["defs"]):
+            # re-executing the definition of a function that has an alias/wrapper leaves two live editions of
+            # "the same" function in the process (the alias keeps the old object); such an edit is delivered by restart
+            delivery = "restart"
+            info["aliased_restart"] = True
+        info["delivery"] = delivery
         editions.append((p2, info))
-        if h["delivery"] == "restart":
+        if delivery == "restart":
             segs.append([len(editions) - 1])
         else:
             segs[-1].append(len(editions) - 1)
@@ -85,9 +92,6 @@ def execute(case, scratch):
         for f in progs.fns(p0):
             if f["memento"] and f.get("version") is None:
                 pres = case.get("pres", "direct")
-                if pres != "direct" and any(progs.has_hidden(ed[0], f["name"]) for ed in editions):
-                    pres = "direct"
-                    excluded += 1
                 roots.append([f["mod"], f["name"], pres])
         mem_steps, ref_steps = [], []
         for si, seg in enumerate(segs):
@@ -135,7 +139,10 @@ def execute(case, scratch):
                                         ei, key, case.get("args", [1, 2])[ai], m1["ok"], earlier[-1], r1["ok"],
                                         [editions[j][1]["kind"] for j in range(earlier[-1] + 1, ei + 1)], info["kind"], info.get("target_is"),
                                         info.get("target"), info.get("delivery")),
-                                    symptom="stale", edit_kinds=since, delivery=info.get("delivery"))
+                                    symptom="stale", edit_kinds=since, delivery=info.get("delivery"),
+                                    via_hidden_plain=any(progs.hidden_plain_reachable(ed[0], key.split(".")[1]) for ed in editions),
+                                    clone_root_hidden=[r[2] for r in roots if r[1] == key.split(".")[1]][0] != "direct"
+                                    and any(progs.has_hidden(ed[0], key.split(".")[1]) for ed in editions))
                             else:
                                 out.violation("edition %d: %s(%d) returned %r, un-memoized execution returns %r" % (
                                     ei, key, case.get("args", [1, 2])[ai], m1["ok"], r1["ok"]), symptom="wrong-value")
@@ -145,7 +152,7 @@ def execute(case, scratch):
                 break
         applied = [e[1] for e in editions[1:]]
         out.nontrivial = changed_memoized and bool(applied)
-        out.excluded = excluded
+        out.excluded = excluded + sum(1 for e in editions if e[1].get("aliased_restart"))
         out.labels = sorted(set(out.labels) | {"edit:" + a["kind"] for a in applied} | {"delivery:" + a["delivery"] for a in applied}
                             | {"feat:" + f for f in progs.features(p0)} | {"pres:" + case.get("pres", "direct")}
                             | ({"changed-memoized-root"} if changed_memoized else set()) | ({"edits-skipped"} if skipped else set()))
